@@ -23,6 +23,15 @@ def classify_compile_error(msgs):
     return codes[0] if codes else 'unknown'
 
 
+def is_compile_violation(policy, code):
+    """policy True: every compile failure of a corpus program is a violation (the property is about compiling).
+    policy 'coded': only a rustc-coded error (E....), i.e. the macro accepted the input and emitted code rustc rejects - there is
+    then no generated method the property could hold for; a diagnostic of the macro itself (no code) is recorded, not judged."""
+    if policy is True:
+        return True
+    return policy == 'coded' and re.match(r'E\d+$', code or '') is not None
+
+
 def run_corpus(out, progs, name, unimock_feature=False, tests=False, jobs=16, kani_extra=(),
                compile_failure_is_violation=False, timeout=3000, compile_only=False):
     """Runs all harnesses of `progs`. Fills `out` (violations / inconclusive) and returns stats dict."""
@@ -43,7 +52,7 @@ def run_corpus(out, progs, name, unimock_feature=False, tests=False, jobs=16, ka
         p = by_pid[pid]
         code = classify_compile_error(msgs)
         stats['compile_failed'][pid] = dict(desc=p.desc, error=code, first=msgs[0][:600])
-        if compile_failure_is_violation:
+        if is_compile_violation(compile_failure_is_violation, code):
             rdir = os.path.join(run.WORK, 'replay', f'{out.prop}_{pid}_compile')
             write_compile_replay(p, rdir, unimock_feature, msgs)
             out.violation(f'compile:{code}:{p.tag}', f'expansion of program {pid} ({p.desc}) does not compile: {code}',
@@ -72,7 +81,7 @@ def run_corpus(out, progs, name, unimock_feature=False, tests=False, jobs=16, ka
             p = by_pid[pid]
             code = classify_compile_error(msgs)
             stats['compile_failed'][pid] = dict(desc=p.desc, error=code, first=msgs[0][:600], where='harness (call site)')
-            if compile_failure_is_violation:
+            if is_compile_violation(compile_failure_is_violation, code):
                 rdir = os.path.join(run.WORK, 'replay', f'{out.prop}_{pid}_compile')
                 write_compile_replay(p, rdir, unimock_feature, msgs)
                 out.violation(f'compile-callsite:{code}:{p.tag}', f'call site of program {pid} ({p.desc}) does not compile against the expansion: {code}',
@@ -119,7 +128,7 @@ def run_corpus(out, progs, name, unimock_feature=False, tests=False, jobs=16, ka
             # replay
             rdir = os.path.join(run.WORK, 'replay', f'{out.prop}_{h}')
             single = run.write_crate(name + '_cx', [p], unimock_feature)
-            vals, cxlog = replay.concrete_values(single, kani_target + '-cx', h)
+            vals, cxlog = replay.concrete_values(single, kani_target + '-cx', h, extra=kani_extra)
             if vals is None:
                 out.inconc(f'engine X: harness {h} FAILED ({r["failed_checks"][:2]}) but no concrete values could be extracted')
                 continue
